@@ -300,7 +300,7 @@ fn main() {
             "states": states.max(1), "transitions": transitions.max(1), "traces_validated_against_impl": execs,
             "samples": results.iter().filter(|r| !r["config"].as_str().unwrap_or("").starts_with("sweep")).take(4).cloned().collect::<Vec<_>>(),
             "evaluations": execs.max(1), "distinct_nontrivial": results.len(),
-            "rule": "one exploration per configuration (84 base configurations: file writer / stream writer × channels 1,2,3,8 × mid-side/fast correlation variants × LPC none/2 × 2 signals × 1 or 3 frames; plus an input sweep of 120 signals × {mono, stereo exhaustive, stereo fast ± mid-side} × LPC 2/8 on one 16-sample block, and 1440 signals × LPC 2/8 mono + 120 stereo on one 576-sample block, with a smaller budget): every schedule of the rayon tasks with ≤ b deviations from the default schedule, b increased until no alternative is pruned (= all schedules) or the execution budget is reached; each execution is the REAL encoder built with the rayon feature over a model of rayon on the shuttle runtime; oracle: bytes identical to the feature-less build's file; states = schedules at the completed bound, transitions = executions × scheduling points",
+            "rule": "one exploration per configuration (84 base configurations: file writer / stream writer × channels 1,2,3,8 × mid-side/fast correlation variants × LPC none/2 × 2 signals × 1 or 3 frames; plus an input sweep of 120 signals × {mono, stereo exhaustive, stereo fast ± mid-side} × LPC 2/8 on one 16-sample block, 1440 signals × LPC 2/8 mono + 120 stereo on one 576-sample block, and channel-heterogeneous inputs (every assignment of 8 per-channel traits — noise, 4 / 1 wasted bits, constant, silence, ramp, shared noise ± 4000, shared noise — to 2 channels × 4 correlation modes, of 4 traits to 3 channels, plus 6 pairs on two 64-sample blocks), with a smaller budget): every schedule of the rayon tasks with ≤ b deviations from the default schedule, b increased until no alternative is pruned (= all schedules) or the execution budget is reached; each execution is the REAL encoder built with the rayon feature over a model of rayon on the shuttle runtime; oracle: bytes identical to the feature-less build's file; states = schedules at the completed bound, transitions = executions × scheduling points",
             "exhaustive": caps.is_empty(),
             "caps_hit": caps,
             "max_distinct_outputs_per_configuration": distinct,
